@@ -170,6 +170,23 @@ pub fn run(opts: &Opts) -> Report {
                 if *q > head {
                     rep.oracle_failure("C10|cut-out-of-range", &format!("recorded cut {q} beyond the source head {head}"), case.clone());
                 }
+                // the recorded message id names a message of the source thread at or before the cut,
+                // and no message lies between it and the cut unless it was requested explicitly
+                let lineage = cf.get(1);
+                let rec_mid = lineage.and_then(|f| f[if is_branch { "parent_message_id" } else { "from_message_id" }].as_str());
+                let msgs_before_cut: Vec<&&Value> = parent_before.iter().filter(|f| f["type"] == "continuity_message_appended" && f["seq"].as_u64().unwrap_or(u64::MAX) <= *q).collect();
+                match rec_mid {
+                    Some(mid) => {
+                        if !msgs_before_cut.iter().any(|f| f["id"].as_str() == Some(mid)) {
+                            rep.oracle_failure("C10|recorded-message-is-not-a-message-before-the-cut", &format!("the lineage record names {mid}, which is not a message of the source thread at or before seq {q}"), case.clone());
+                        }
+                    }
+                    None => {
+                        if !msgs_before_cut.is_empty() {
+                            rep.oracle_failure("C10|recorded-message-missing", &format!("the lineage record names no message although the source has {} at or before seq {q}", msgs_before_cut.len()), case.clone());
+                        }
+                    }
+                }
                 if !is_branch {
                     let a = cf.get(1).and_then(|f| f["summary_artifact_id"].as_str()).unwrap_or("");
                     let blob = ts.ws.join(".rip/artifacts/blobs").join(a);
